@@ -17,6 +17,18 @@ import (
 type histOp struct {
 	name string
 	run  func() string
+	// raw performs the call and returns a renderer of its result; rendering (fmt, pooled buffers) is
+	// kept out of scheduled threads because library pools would add happens-before edges between them
+	raw func() func() string
+}
+
+// exec runs the operation and returns the deferred renderer.
+func (o histOp) exec() func() string {
+	if o.raw != nil {
+		return o.raw()
+	}
+	s := o.run()
+	return func() string { return s }
 }
 
 func obsEnc(r Res, buf []byte) string {
@@ -43,29 +55,44 @@ func obsSize(r Res) string {
 // encOps: size/encode by pointer and by value of a value of s.
 func encOps(tag string, s *ref.Struct, v *ref.Val) []histOp {
 	mkv := func() reflect.Value { return universe.New(s, v) }
-	return []histOp{
-		{tag + ":size(ptr)", func() string { return obsSize(Size(mkv().Interface())) }},
-		{tag + ":size(val)", func() string { return obsSize(Size(mkv().Elem().Interface())) }},
-		{tag + ":enc(ptr)", func() string { b := make([]byte, 512); return obsEnc(Enc(b, mkv().Interface()), b) }},
-		{tag + ":enc(val)", func() string { b := make([]byte, 512); return obsEnc(Enc(b, mkv().Elem().Interface()), b) }},
+	mk := func(name string, size, byVal bool) histOp {
+		raw := func() func() string {
+			v := mkv()
+			var arg interface{} = v.Interface()
+			if byVal {
+				arg = v.Elem().Interface()
+			}
+			if size {
+				r := Size(arg)
+				return func() string { return obsSize(r) }
+			}
+			b := make([]byte, 512)
+			r := Enc(b, arg)
+			return func() string { return obsEnc(r, b) }
+		}
+		return histOp{name: name, raw: raw, run: func() string { return raw()() }}
 	}
+	return []histOp{mk(tag+":size(ptr)", true, false), mk(tag+":size(val)", true, true), mk(tag+":enc(ptr)", false, false), mk(tag+":enc(val)", false, true)}
 }
 
 // decOp: decode msg into a destination with the given prior content; the
 // destination is part of the observation only when the call succeeds.
 func decOp(tag string, s *ref.Struct, msg []byte, prior *ref.Val) histOp {
-	return histOp{tag, func() string {
+	raw := func() func() string {
 		dst := universe.New(s, prior)
 		in := append([]byte{}, msg...)
 		r := Dec(in, dst.Interface())
-		if r.Panic != nil {
-			return fmt.Sprintf("panic:%v", r.Panic)
+		return func() string {
+			if r.Panic != nil {
+				return fmt.Sprintf("panic:%v", r.Panic)
+			}
+			if r.Err != nil {
+				return "err:" + r.Err.Error()
+			}
+			return fmt.Sprintf("n=%d value=%s", r.N, universe.ReadStruct(s, dst.Elem()).Canon())
 		}
-		if r.Err != nil {
-			return "err:" + r.Err.Error()
-		}
-		return fmt.Sprintf("n=%d value=%s", r.N, universe.ReadStruct(s, dst.Elem()).Canon())
-	}}
+	}
+	return histOp{name: tag, raw: raw, run: func() string { return raw()() }}
 }
 
 // populated returns a pointer to a value of the static struct type rt with its
@@ -94,20 +121,32 @@ func populated(rt reflect.Type, depth int) reflect.Value {
 }
 
 func staticOps(tag string, rt reflect.Type) []histOp {
+	mk := func(name string, raw func() func() string) histOp {
+		return histOp{name: name, raw: raw, run: func() string { return raw()() }}
+	}
 	return []histOp{
-		{tag + ":size(ptr)", func() string { return obsSize(Size(populated(rt, 2).Interface())) }},
-		{tag + ":enc(val)", func() string { b := make([]byte, 256); return obsEnc(Enc(b, populated(rt, 2).Elem().Interface()), b) }},
-		{tag + ":dec", func() string {
+		mk(tag+":size(ptr)", func() func() string {
+			r := Size(populated(rt, 2).Interface())
+			return func() string { return obsSize(r) }
+		}),
+		mk(tag+":enc(val)", func() func() string {
+			b := make([]byte, 256)
+			r := Enc(b, populated(rt, 2).Elem().Interface())
+			return func() string { return obsEnc(r, b) }
+		}),
+		mk(tag+":dec", func() func() string {
 			dst := reflect.New(rt)
 			r := Dec([]byte{8, 0, 1, 0, 0, 0, 9, 0}, dst.Interface())
-			if r.Panic != nil {
-				return fmt.Sprintf("panic:%v", r.Panic)
+			return func() string {
+				if r.Panic != nil {
+					return fmt.Sprintf("panic:%v", r.Panic)
+				}
+				if r.Err != nil {
+					return "err:" + r.Err.Error()
+				}
+				return fmt.Sprintf("n=%d x=%d", r.N, dst.Elem().Field(0).Int())
 			}
-			if r.Err != nil {
-				return "err:" + r.Err.Error()
-			}
-			return fmt.Sprintf("n=%d x=%d", r.N, dst.Elem().Field(0).Int())
-		}},
+		}),
 	}
 }
 
@@ -211,7 +250,7 @@ func c07Ops() []histOp {
 		switch d.class {
 		case "pointer:list-element", "syntax:missing-gt", "duplicate-id", "annotation-mismatch:struct-name-in-list", "pointer:to-map", "map-key:struct-by-value":
 			rt := reflect.StructOf(d.fields)
-			ops = append(ops, histOp{"Invalid(" + d.class + "):enc", func() string { b := make([]byte, 64); return obsEnc(Enc(b, reflect.New(rt).Interface()), b) }})
+			ops = append(ops, histOp{name: "Invalid(" + d.class + "):enc", run: func() string { b := make([]byte, 64); return obsEnc(Enc(b, reflect.New(rt).Interface()), b) }})
 		}
 	}
 
